@@ -73,3 +73,23 @@ Definition setup_graph (nodes : list nat) (target exclude root : option (list na
   | SelOk g => SelOk (filter setup g)
   end.
 End Sel.
+
+(* ---- alias resolution: dag.py:425-472.  An alias is an ExecNode reference or a string; a string
+        that is a tag wins over the same string being a node id. *)
+Inductive alias := ARef (n : nat) | AStr (a : nat).
+Fixpoint assoc_l {A} (t : list (nat * A)) (k : nat) : option A :=
+  match t with [] => None | (k', v) :: r => if Nat.eqb k' k then Some v else assoc_l r k end.
+Definition alias_to_ids (nodes : list nat) (tags : list (nat * list nat)) (ids : list (nat * nat)) (al : alias) : option (list nat) :=
+  match al with
+  | ARef n => if mem n nodes then Some [n] else None
+  | AStr a => match assoc_l tags a with
+              | Some (x :: l) => Some (x :: l)
+              | _ => match assoc_l ids a with Some n => Some [n] | None => None end
+              end
+  end.
+Fixpoint resolve_all (nodes : list nat) (tags : list (nat * list nat)) (ids : list (nat * nat)) (als : list alias) : option (list nat) :=
+  match als with
+  | [] => Some []
+  | a :: r => match alias_to_ids nodes tags ids a, resolve_all nodes tags ids r with
+              | Some x, Some y => Some (x ++ y) | _, _ => None end
+  end.
